@@ -394,6 +394,10 @@ def oracle_markets(ctx, st, ts):
     return out
 
 
+def _plain(d):
+    return {k: (float(v) if isinstance(v, Fraction) else v) for k, v in d.items()}
+
+
 def evaluate(ctx, status, st, ts, op="bar-end", extra=None):
     """compare one AccountStatus with the independent valuation of state `st` at bar `ts`"""
     mon = ctx.mon
@@ -468,7 +472,7 @@ def evaluate(ctx, status, st, ts, op="bar-end", extra=None):
                 r.kind, op, "market-net-value", site,
                 f"{name}: reported net_value {ms.net_value} vs independent valuation [{float(val.lo)!r}, {float(val.hi)!r}] "
                 f"(dev {float(dev):.3e} > allowed {float(allow):.3e}) at {ts} ({ctx.mix}, {where}, after {op}); parts "
-                f"{ {str(k): float(v) for k, v in list(val.parts.items())[:8]} }; diag {diag}; state {st['m'][name]}", data)
+                f"{ {str(k): float(v) for k, v in list(val.parts.items())[:8]} }; diag {_plain(diag)}; state {st['m'][name]}", data)
         total_lo += val.lo * conv
         total_hi += val.hi * conv
         gross += val.gross * abs(conv)
@@ -696,7 +700,9 @@ def build_sq(rng):
         ob = G.bal(strat.broker, osqth)
         wb = G.bal(strat.broker, weth)
         return G.Op("uniswap", "add_liquidity_by_tick", "forced",
-                    lambda: state.__setitem__("pos", um.add_liquidity_by_tick(lo, hi, ob * Decimal("0.5"), wb * Decimal("0.05"))[0]))
+                    lambda: state.__setitem__("pos", um.add_liquidity_by_tick(
+                        lo, hi, ob * Decimal("0.05" if redeem_variant else "0.5"),
+                        Decimal("0.4") if redeem_variant else wb * Decimal("0.05"))[0]))
 
     def f_dep(strat):
         if "vault" not in state or "pos" not in state:
@@ -735,11 +741,13 @@ def build_der(rng, extra_markets=False):
     dw = W.DeribitWorld(rng, hours=hours, n_instr=n_instr, token=token, size_kind=rng.choice(["int", "float", "mixed"]),
                         closed_prob=0.1, missing_hours=missing, expiries=exps)
     dm = dw.market("deribit")
-    off, n = rng.choice([(0, 75), (35, 40), (50, 30), (50, 75), (55, 20)])
+    interval = rng.choice(["1min", "1min", "1min", "5min"])
+    k = 5 if interval == "5min" else 1
+    off, n = rng.choice([(0, 75), (35, 40), (50, 30), (50, 75), (55, 20)]) if k == 1 else rng.choice([(0, 26), (35, 18), (50, 16)])
     start = T0 + timedelta(minutes=off)
     flip = rng.random() < 0.5
     names, d0, d1, q0 = (("USDC", "WETH"), 6, 18, True) if not flip else (("WETH", "USDC"), 18, 6, False)
-    uw = W.UniWorld(rng, n=n, d0=d0, d1=d1, token0_is_quote=q0, fee=0.05, names=names, start=start, price=rng.uniform(1500, 4000),
+    uw = W.UniWorld(rng, n=n * k, d0=d0, d1=d1, token0_is_quote=q0, fee=0.05, names=names, start=start, price=rng.uniform(1500, 4000),
                     path="calm", liq_exp=20, vol_scale=100)
     um = uw.market("uni")
     span = [T0 + timedelta(minutes=i) for i in range(hours * 60)]
@@ -761,7 +769,7 @@ def build_der(rng, extra_markets=False):
     forced = {}
     # cash moved on closed bars, trades on the open ones
     for b in range(n):
-        ts = start + timedelta(minutes=b)
+        ts = start + timedelta(minutes=b * k)
         if ts.minute == 0:
             def f_buy(strat):
                 data = dm.market_status.data
@@ -783,8 +791,8 @@ def build_der(rng, extra_markets=False):
             forced.setdefault((b, rng.choice(["before_bar", "on_bar", "after_bar"])), []).append(f_cash)
     pre = Decimal(rng.choice([0, 1, 2])) * assets[dm.token] / 4
     return {"markets": [um, dm] if rng.random() < 0.6 else [dm, um], "kits": kits, "frame": frame, "quote": quote, "assets": assets,
-            "interval": "1min", "index": uw.index, "forced": forced, "pre": [lambda: dm.deposit(pre)] if pre > 0 else [],
-            "info": {"token": token, "equal_uni_quote": equal_uni, "offset_min": off, "missing_hour": bool(missing)}}
+            "interval": interval, "index": uw.index, "forced": forced, "pre": [lambda: dm.deposit(pre)] if pre > 0 else [],
+            "info": {"token": token, "equal_uni_quote": equal_uni, "offset_min": off, "missing_hour": bool(missing), "interval": interval}}
 
 
 def build_all(rng):
@@ -1131,9 +1139,9 @@ def floors(merged, tier):
     k = 1 if tier == "quick" else 10
     need = {
         "bars": 800 * k, "direct-queries": 800 * k, "df-rows": 500 * k, "runs-complete": 20 * k,
-        "evaluations-with-lent-position": 60 * k, "evaluations-after-position-returned-or-redeemed": 10 * k,
-        "deribit-cash-moved-on-closed-bar": 20 * k, "deribit-closed-bar-with-options": 40 * k,
-        "market-quote-differs-and-price-not-1": 200 * k,
+        "evaluations-with-lent-position": 300 * k, "evaluations-after-position-returned-or-redeemed": 50 * k,
+        "deribit-cash-moved-on-closed-bar": 200 * k, "deribit-closed-bar-with-options": 200 * k,
+        "market-quote-differs-and-price-not-1": 1000 * k,
     }
     for m in BUILDERS:
         need[f"runs/{m}"] = 3 * k
